@@ -83,9 +83,9 @@ type c08 struct {
 	cur   *c08Step
 
 	// material for replays: taken from earlier *successful* exchanges
-	oldRevs   []types.V2FileContract     // earlier committed revisions of the current contract (stale bases)
-	oldSigs   []types.Signature          // earlier renter revision signatures
-	oldChal   []types.Signature          // earlier challenge signatures (free/append)
+	oldRevs   []types.V2FileContract // earlier committed revisions of the current contract (stale bases)
+	oldSigs   []types.Signature      // earlier renter revision signatures
+	oldChal   []types.Signature      // earlier challenge signatures (free/append)
 	oldRoots  *proto4.RPCSectorRootsRequest
 	oldFund   *proto4.RPCFundAccountsRequest
 	oldRepl   map[bool]*proto4.RPCReplenishAccountsRequest
@@ -191,7 +191,9 @@ func (c *c08) round2(bad string) rhplab.Round2 {
 	case "sig-random":
 		return func(types.V2FileContract, types.Hash256) (types.Signature, bool) { return c.randSig(), true }
 	case "sig-wrongkey":
-		return func(_ types.V2FileContract, h types.Hash256) (types.Signature, bool) { return c.foreign.SignHash(h), true }
+		return func(_ types.V2FileContract, h types.Hash256) (types.Signature, bool) {
+			return c.foreign.SignHash(h), true
+		}
 	case "sig-other-number":
 		return func(rev types.V2FileContract, _ types.Hash256) (types.Signature, bool) {
 			rev.RevisionNumber++
